@@ -747,16 +747,21 @@ class ProcProxy:
                 stdin = io.TextIOWrapper(inbuf, encoding=enc, errors=err)
             if isinstance(self.stdin, int):
                 owned_handles.append(stdin)
-        stdout = self._pick_buf(self.stdout, sys.stdout, enc, err)
-        if stdout is not self.stdout and stdout is not sys.stdout:
-            owned_handles.append(stdout)
-        if self.stderr == subprocess.STDOUT:
+        out_to_err = isinstance(self.stdout, int) and self.stdout == 2
+        if not out_to_err:
+            stdout = self._pick_buf(self.stdout, sys.stdout, enc, err)
+            if stdout is not self.stdout and stdout is not sys.stdout:
+                owned_handles.append(stdout)
+        if self.stderr == subprocess.STDOUT and not out_to_err:
             # ``e>o`` / ``2>&1``: stderr goes wherever stdout goes
             stderr = stdout
         else:
             stderr = self._pick_buf(self.stderr, sys.stderr, enc, err)
             if stderr is not self.stderr and stderr is not sys.stderr:
                 owned_handles.append(stderr)
+        if out_to_err:
+            # ``o>e`` / ``1>&2``: stdout goes wherever stderr goes
+            stdout = stderr
         # run the actual function
         try:
             alias_env = {}
